@@ -34,6 +34,7 @@ GETTERS = ['get_results', 'get_results_short', 'get_results_long', 'get_debug']
 CONFIG = {'options_parser', 'instance_options', 'extra_constraints', 'optimisation_options', 'solver_options', 'additional_arguments'}
 SOLVE_CALLS = {'solve', 'pulp_setup', 'run', 'writeLP', 'add_constraints', 'run_optimisations'}
 SOLVE_CTORS = {'LpVariable', 'LpProblem', 'LP_Solver', 'Brute_force_solver'}
+NONDET = {'now', 'today', 'utcnow', 'time', 'perf_counter', 'monotonic', 'random', 'choice', 'shuffle', 'randint', 'sample', 'uuid4', 'getpid'}
 
 
 def run(rep, repo, tier):
@@ -65,9 +66,11 @@ def run(rep, repo, tier):
             for n in ast.walk(f.node):
                 if isinstance(n, ast.Call):
                     nm = n.func.attr if isinstance(n.func, ast.Attribute) else (n.func.id if isinstance(n.func, ast.Name) else None)
+                    if isinstance(n.func, ast.Attribute) and nm in NONDET and nm not in repo.funcs_by_name:
+                        bad_calls.append('%s:%d %s (clock / random source: the text would differ between calls)' % (f.relpath, n.lineno, ast.unparse(n)[:60]))
                     if (isinstance(n.func, ast.Attribute) and nm in SOLVE_CALLS) or (isinstance(n.func, ast.Name) and nm in SOLVE_CTORS):
                         bad_calls.append('%s:%d %s' % (f.relpath, n.lineno, ast.unparse(n)[:60]))
-        rep.check(not bad_calls, 'C18.R1', g.where, 'the getter reaches no solve / set-up / variable-creating call', got=bad_calls[:3] or 'none', construct='getter reaches ' + (bad_calls[0].split(' ', 1)[1] if bad_calls else ''))
+        rep.check(not bad_calls, 'C18.R1', g.where, 'the getter reaches no solve / set-up / variable-creating call and no clock or random source', got=bad_calls[:3] or 'none', construct='getter reaches ' + (bad_calls[0].split(' ', 1)[1] if bad_calls else ''))
         rep.count('getter_reachable_functions', len(reach))
     # ---- solve-reachable ------------------------------------------------------------------------------------------
     sevs = E.analyse(solve)
